@@ -130,7 +130,16 @@ def register(claim, na):
           "axis=1 (R-CLOSEDSET); world points moved with the inverse pose in row-vector convention (R-FRAME); squared distances "
           "compared with squared sizes (R-DEGREE); axis agreement with support function and AABB (R-AXIS). Does not decide the "
           "1e-9 L band nor agreement with point_to_<shape> on concrete points.", "DESIGN.md §4 C13")
-    for p in ["C06", "C10", "C11"]:
+    claim("C06", AST + ": update-order, payload writer/reader agreement, whitelist filtering; plus the C05 tree rules and C14's "
+                       "update_pose coherence",
+          "Decides (thin, structural): update_collider_poses rebuilds a fresh tree, visits all colliders, looks poses up to "
+          "'origin', calls update_pose BEFORE aabb() and inserts payload (frame, collider) (R-UPDATEORDER); query results are "
+          "read as written, pair[0]/pair[1] index this/other tree, self-pairs skipped only for equal indices, candidates removed "
+          "only by the whitelist (R-PAYLOAD); detect / detect_any visit every collider, filter only by the querying frame's "
+          "whitelist, run the narrow phase on every candidate, mark both frames / return at the first hit (R-WHITELIST); "
+          "transitively the AABB tree invariants and R-COHERENCE. Does not decide equality with an all-pairs oracle on concrete "
+          "robots, URDF parsing, or robots with several colliders per frame.", "DESIGN.md §4 C06")
+    for p in ["C10", "C11"]:
         na(p, PENDING)
     na("C17", "volumes, positivity, partition and potentials are numerical facts about generated vertex data over continuous "
               "parameters; the only static part (combinatorics of literal tables) is too small a share of the statement to "
